@@ -736,9 +736,11 @@ def _deeponet(env, out_order, neurons, k, trunk_order=("t",)):
     return net, oracle, disc, fsp
 
 
-def pideeponet_case(outs, kind, has_p=True, has_g=True, uses_f=True, n=2, nf=2, k=2):
-    name = "deeponet/pi/out=%s/%s/n%d_nf%d_k%d%s%s%s" % ("".join(outs), kind, n, nf, k, "/p" if has_p else "", "/g" if has_g else "",
-                                                       "/f" if uses_f else "")
+def pideeponet_case(outs, kind, has_p=True, has_g=True, uses_f=True, n=2, nf=2, k=2, after_other_set=False):
+    """after_other_set: ANOTHER condition on the same network, with its own function set of the same size, was evaluated
+    just before in the same iteration (the order of Solver.training_step)"""
+    name = "deeponet/pi/out=%s/%s/n%d_nf%d_k%d%s%s%s%s" % ("".join(outs), kind, n, nf, k, "/p" if has_p else "", "/g" if has_g else "",
+                                                         "/f" if uses_f else "", "/after_condition_with_other_function_set" if after_other_set else "")
     dims = DIMS1
     static = kind.endswith("_static")
 
@@ -773,6 +775,12 @@ def pideeponet_case(outs, kind, has_p=True, has_g=True, uses_f=True, n=2, nf=2, 
             return R_t
 
         cnd = PIDeepONetCondition(net, fset, smp, K.make_fn(sig, impl, "residual"), **kw)
+        if after_other_set:
+            ksamp0 = K.FixedSampler(K.fixed_points(env, "kpts0", ("q",), dims, nf))
+            fset0 = tp.domains.CustomFunctionSet(fsp, ksamp0, lambda t, q: 2 * q * t + fa)
+            smp0 = K.FixedSampler(K.fixed_points(env, "pts0", ("t",), dims, n))
+            cnd0 = PIDeepONetCondition(net, fset0, smp0, K.make_fn(["u"], lambda u: u, "residual0"))
+            cnd0(iteration=0)
         loss = cnd(iteration=0)
         # ---- oracle
         produced = recorder.produced[0 if static else -1]
@@ -1099,6 +1107,7 @@ def cases(tier):
         cs.append(hpm_data_case(XT, "inf", calls=2))
     # ---- DeepONet / variational (mostly thorough) ---------------------------------------------------
     cs.append(pideeponet_case(U, "fixed"))
+    cs.append(pideeponet_case(U, "fixed", after_other_set=True))
     cs.append(deeponet_data_case(U, 2))
     cs.append(variational_case(XT, TX, False))
     if th:
